@@ -96,7 +96,10 @@ let () =
              String.concat "" (List.map (function Some s -> "str " ^ tok_of_bytes s ^ " ; " | None -> "") strs) ^
              "hdr " ^ string_of_int (List.length vs) ^
              String.concat "" (List.map (fun v -> " " ^ tok_of_bytes v) vs) ^
-             " total " ^ string_of_int (List.length hs)) in
+             " total " ^ string_of_int (List.length hs) ^
+             (* the same fields on the wire, whatever the status code *)
+             " wire ok " ^ string_of_int (List.length vs) ^
+             String.concat "" (List.map (fun v -> " " ^ tok_of_bytes v) vs)) in
       let all_ok = List.for_all cookie_ok cs in
       let verdict =
         (match itoks with
@@ -111,11 +114,17 @@ let () =
                   (List.rev strs, List.map bytes_of_tok vs, r')
                 | _ -> failwith "shape" in
               let (strs_i, hdrs_i, rest) = go itoks [] in
-              let total = (match rest with ["total"; t] -> int_of_string t | _ -> failwith "shape") in
+              let (total, wire) = (match rest with
+                  | "total" :: t :: "wire" :: res :: n :: vs when List.length vs = int_of_string n ->
+                    (int_of_string t, Some (res, List.map bytes_of_tok vs))
+                  | ["total"; t] -> (int_of_string t, None)
+                  | _ -> failwith "shape") in
               if not (oracle_set_cookies cs strs_i) then "oracle=fail@string"
               else if not (oracle_set_cookies cs hdrs_i) then "oracle=fail@header"
               else if total <> List.length cs then "oracle=fail@field-count"
-              else "oracle=ok"
+              else (match wire with
+                  | Some (res, vs) when all_ok && (res <> "ok" || vs <> hdrs_i) -> "oracle=fail@set-cookie-fields-on-the-wire"
+                  | _ -> "oracle=ok")
             with _ -> "oracle=fail@unparsable")) in
       Printf.printf "%s | %s\n" m verdict
     | _ -> Printf.printf "? | oracle=badcase\n") cases impl
